@@ -6,7 +6,7 @@
 From Coq Require Import ZArith String List Bool.
 Require Import V.Base.PyLib V.Gen.RelKeys_gen V.Model.Graph V.Model.Sem V.Model.Single V.Model.Mult V.Model.Join V.Proofs.C01_proofs
                V.Proofs.Mult_proofs V.Proofs.C02_proofs V.Proofs.C10_proofs V.Model.Plan V.Model.SymShape V.Gen.SymAgg_gen
-               V.Proofs.C02_symagg_proofs V.Proofs.C02_decision_proofs.
+               V.Proofs.C02_symagg_proofs V.Proofs.C02_decision_proofs V.Proofs.C02_query_proofs.
 Import ListNotations.
 Open Scope nat_scope.
 
@@ -28,6 +28,12 @@ Theorem C02_metric_value : forall h q m k g, card_truthful (jq_tables q) 0 (jq_s
   \/ (jm_sym m = true /\ (a = ASum \/ a = AAvg \/ a = ACount) /\ sym_ok h (nth (jm_slot m) (jq_tables q) []) (jm_pk m) (jm_measure m)) ->
   metric_val h (jq_tables q) m g = Some (spec_metric_join (jq_tables q) m g).
 Proof. exact metric_correct. Qed.
+
+(* THE WHOLE QUERY: when every metric meets one of these conditions, the generated joined query is not rejected and returns exactly the reference
+   rows -- every group, every metric, no value multiplied -- for join trees and tables of any size *)
+Theorem C02_query_rows : forall h q, card_truthful (jq_tables q) 0 (jq_steps q) -> (forall m, In m (jq_metrics q) -> metric_ok h q m) ->
+  run_join h q = Some (spec_join q).
+Proof. exact query_correct. Qed.
 
 (* the same edges whichever side declares the relationship *)
 Theorem C02_side_invariant : forall g a b f, lookup g (g_name a) = Some a -> lookup g (g_name b) = Some b ->
